@@ -218,6 +218,8 @@ pub struct SimWriter {
     pub log: DevLog,
     /// number of accepted bytes at the time of the first hard error (prefix to judge)
     pub accepted_at_first_hard: Option<usize>,
+    /// accepted bytes when the first flush was answered with Interrupted (the caller sees a failure there)
+    pub first_flush_eintr_at: Option<usize>,
     permanent: Option<ErrKind>,
     budget: u64,
     noprogress: u32,
@@ -234,6 +236,7 @@ impl SimWriter {
             accepted: Vec::new(),
             log: DevLog::default(),
             accepted_at_first_hard: None,
+            first_flush_eintr_at: None,
             permanent: None,
             budget,
             noprogress: 0,
@@ -361,6 +364,9 @@ impl Write for SimWriter {
         match act {
             Act::Eintr => {
                 self.log.flush_eintrs += 1;
+                if self.accepted_at_first_hard.is_none() && self.first_flush_eintr_at.is_none() {
+                    self.first_flush_eintr_at = Some(self.accepted.len());
+                }
                 self.log.answers.str("feintr");
                 Err(io::Error::new(ErrorKind::Interrupted, "simulated EINTR (flush)"))
             }
